@@ -13,6 +13,7 @@ import (
 	"os"
 	"regexp"
 	"runtime/debug"
+	"runtime/pprof"
 	"sort"
 	"strings"
 	"sync"
@@ -87,11 +88,13 @@ func main() {
 	dump := flag.String("dump", "", "directory for .smt2 dumps of every query")
 	tags := flag.String("tags", "", "build tags")
 	splitMax := flag.Int("splitmax", 4, "bound on the number of parts strings.Split may yield (theory mode)")
+	prune := flag.Bool("prune", true, "ask the solver before executing diagnostic (error) blocks and prune the infeasible ones")
+	feasSolver := flag.String("feassolver", "z3-new", "solver used for in-line feasibility checks")
+	concrete := flag.String("concrete", "", "replay vector (JSON): execute the harness concretely with these draws")
 	doInit := flag.Bool("init", false, "execute the harness package's init (needed for level K globals)")
 	labels := flag.String("labels", "", "regexp: only obligations whose label matches are emitted (no-panic is always kept)")
 	flag.Parse()
 	strTheory = *strs == "theory"
-
 	t0 := time.Now()
 	cfg := &packages.Config{Mode: packages.LoadAllSyntax, Dir: *dir}
 	if *tags != "" {
@@ -125,6 +128,17 @@ func main() {
 	prog, spkgs := ssautil.AllPackages(pkgs, ssa.InstantiateGenerics)
 	prog.Build()
 	loadMs := time.Since(t0).Milliseconds()
+	if pf := os.Getenv("GOSYM_PROF"); pf != "" {
+		f, _ := os.Create(pf)
+		pprof.StartCPUProfile(f)
+		go func() {
+			time.Sleep(30 * time.Second)
+			pprof.StopCPUProfile()
+			f.Close()
+			os.Exit(3)
+		}()
+	}
+
 
 	re := regexp.MustCompile(*run)
 	var labelRe *regexp.Regexp
@@ -162,8 +176,18 @@ func main() {
 		results = append(results, res)
 		e := &Engine{prog: prog, targets: targets, inited: map[*ssa.Package]bool{}, globals: map[*ssa.Global]*Obj{},
 			gheap: map[*Obj]Value{}, funcs: map[string]int{}, fnInstrs: map[string]int{}, stubs: map[string]int{},
-			stack: map[ssa.Instruction]int{}, unwind: *unwind, panicC: FalseT, strMax: *strMax, solverName: *solver,
+			stack: map[ssa.Instruction]int{}, unwind: *unwind, panicC: FalseT, strMax: *strMax, solverName: *feasSolver, prune: *prune,
 			prefix: fmt.Sprintf("h%d_", hi), uf: map[string]*Term{}, splitMax: *splitMax, bounds: map[string]bool{}, optRecs: map[*Obj]*StructV{}}
+		if *concrete != "" {
+			b, err := os.ReadFile(*concrete)
+			if err != nil {
+				fatal(err)
+			}
+			e.concrete = []NondetVal{}
+			if err := json.Unmarshal(b, &e.concrete); err != nil {
+				fatal(err)
+			}
+		}
 		t1 := time.Now()
 		func() {
 			defer func() {
